@@ -70,13 +70,13 @@ def gen_cases(tier, seed0):
             nsp = 4 if netname == "4-species" else 3
             if nsp == 4 and tier == "quick" and not (spname.endswith("rrr") or spname.startswith("graph")):
                 continue
-            for variant in ("plain", "chemostat", "chemostat2"):
+            for variant in ("plain", "chemostat", "chemostat2", "chemostat-mid", "chemostat-first"):
                 if variant != "plain" and not (netname in ("A+B<->C", "cycle", "none", "A<->B") and
                                                (spname.endswith(("rrr", "ppp")) or spname.startswith("graph"))):
                     continue
                 state = [float(11 + (7 * q) % 23) for q in range(nsp * n)]
                 chem = None
-                if variant == "chemostat":
+                if variant in ("chemostat", "chemostat-mid", "chemostat-first"):
                     chem = [0] * (nsp * n)
                     chem[2 * n + 0] = 1          # species C chemostated in the first and the last cell
                     chem[2 * n + n - 1] = 1
@@ -89,6 +89,13 @@ def gen_cases(tier, seed0):
                         "envs": ["c", "w"], "space": space, "state": state}
                 if chem:
                     spec["chemostats"] = chem
+                if variant in ("chemostat-mid", "chemostat-first") and nsp == 3:
+                    # the same system with its species LISTED in another order: the chemostated species C sits between
+                    # (resp. before) the species the reactions couple
+                    order = [0, 2, 1] if variant == "chemostat-mid" else [2, 0, 1]
+                    spec["species"] = [spec["species"][q] for q in order]
+                    spec["state"] = [v for q in order for v in state[q * n:(q + 1) * n]]
+                    spec["chemostats"] = [v for q in order for v in chem[q * n:(q + 1) * n]]
                 yield {"net": netname, "space": spname, "variant": variant, "spec": spec, "seeds": seeds}
 
 
